@@ -6,6 +6,7 @@ ordered parent list (any length), every class of crossover probability and selec
 stream.  `prov` is the property's own predicate and mentions no probability.  Float laws used: none.
 -/
 import CambrianModel.Lemmas.CrossLemmas
+import CambrianModel.Lemmas.KeySelectLemmas
 namespace Cambrian.Props
 open Cambrian
 
@@ -26,6 +27,28 @@ theorem C12_same (cp sp : PClass) (s : SNode) (ps : List VNode) (p out : VNode) 
     (hne : ps ≠ []) (hall : ∀ q ∈ ps, q = p) (hp : conf s p = true)
     (h : crossAcc cp sp s ps out = true) : out = p :=
   crossAcc_same cp sp s ps p out hs hne hall hp h
+
+/-- The acceptor is not tighter than the code it describes, for the most intricate step of recombination: every key
+    set the ALGORITHM `select_anon_map_keys` can return (`selectKeys`: the loop over the shuffled key union with
+    forced keys below the minimum size, a parent selected per key, the cut at the maximum size) - for every shuffle,
+    every sequence of selected parents, any number of parents and any bounds of a well-formed map - is accepted by
+    the relational description `keysOk` that `crossAcc` uses.  (So a disagreement reported by K-ops at a map is never
+    an artefact of `keysOk`.) -/
+theorem C12_keys_refine (sp : PClass) (mn mx : Option Nat) (ps : List VNode) (order : List Nat) (sel : Nat → Nat)
+    (S : List Nat) (hsp : sp ≠ .invalid) (hne : ps ≠ [])
+    (hshuffle : order.Perm (unionKeys ps))
+    (hsel : ∀ i, sel i < ps.length) (hsel1 : sp = .one → ∀ i, sel i = 0)
+    (hmx : mx ≠ some 0) (hb : ∀ a b, mn = some a → mx = some b → a < b)
+    (hS : S.Perm (selectKeys mn mx ps order sel)) (hsorted : sortedNat S = true) :
+    keysOk sp mn mx ps S = true :=
+  selectKeys_keysOk sp mn mx ps order sel S hsp hne hshuffle hsel hsel1 hmx hb hS hsorted
+
+/-- the algorithm on an example: minimum size 1 forces the first shuffled key although the selected (first) parent
+    lacks it; key 9 is then dropped because the selected parent lacks it -/
+example :
+    let p1 : VNode := .amap (.cons 1 (.bool true) (.cons 2 (.bool true) .nil))
+    let p2 : VNode := .amap (.cons 7 (.bool true) (.cons 9 (.bool true) .nil))
+    selectKeys (some 1) none [p1, p2] [7, 1, 9, 2] (fun _ => 0) = [7, 1, 2] := by decide
 
 /-- non-vacuity: two parents differing in both fields, crossover decided: a mixed offspring is accepted and has
     provenance; an offspring with an invented leaf is not accepted -/
